@@ -351,7 +351,7 @@ func c06Exec(raw json.RawMessage) (*Case, error) {
 	cs := &Case{Obs: obs, Key: string(raw)}
 	if !ran {
 		// no usable cursor in this history: a trivially true case
-		cs.Coq = fmt.Sprintf("mkC06 (mkCursor SNew (mkR 0 0) (mkR 0 0) (mkR 0 0)) false 0 0 1 [] [] [] [] 1")
+		cs.Coq = "mkC06 (mkCursor SNew (mkR 0 0) (mkR 0 0) (mkR 0 0)) false 0 0 0 [] [] [] [] 0"
 		cs.Class = "nocursor"
 		return cs, nil
 	}
